@@ -59,6 +59,21 @@ theorem observe_independent_of_schedule (S : Sys K V C B R T) {Good : (K → Opt
   have s2 := sim_run_ref S hA σ₂ n₂ n₂ h2
   rw [sim_observe S hA _ _ s1, sim_observe S hA _ _ s2, hb]
 
+/-- (C01, unconditional part) For ANY system (no assumption on the native caches), as long as block execution
+    reads contract storage only: flushes, GC of auxiliary keys and mempool traffic — in any number, at any
+    points — never change an observation. Two nodes agreeing on height, contract storage, tip results and
+    caches, fed the same blocks under two restart-free schedules, observe the same. -/
+theorem observe_independent_of_flush_gc_pool (S : Sys K V C B R T)
+    (hst : ∀ rd c h b, S.apply rd c h b = S.apply (stateView S rd) c h b)
+    (n₁ n₂ : Node K V C R TX) (h0 : SimEq S n₁ n₂)
+    (σ₁ σ₂ : List (Step K B TX)) (hb : blocksOf σ₁ = blocksOf σ₂)
+    (h1 : noRestart σ₁ = true) (h2 : noRestart σ₂ = true) :
+    observe S (run S n₁ σ₁) = observe S (run S n₂ σ₂) := by
+  have hrefl : SimEq S n₂ n₂ := ⟨rfl, rfl, rfl, rfl⟩
+  have s1 := simEq_run_ref S hst σ₁ n₁ n₂ h1 h0
+  have s2 := simEq_run_ref S hst σ₂ n₂ n₂ h2 hrefl
+  rw [simEq_observe S _ _ s1, simEq_observe S _ _ s2, hb]
+
 end generic
 
 namespace Natives
@@ -202,6 +217,24 @@ theorem natives_schedule_independent_partial (cfg : Cfg) (holder : Acct)
   have := observe_independent_of_schedule (safeSys cfg) (safeSys_adequate cfg) _ _ h0 σ₁ σ₂ hb
   rw [run_safe_eq cfg σ₁ _ h1, run_safe_eq cfg σ₂ _ h2] at this
   exact this
+
+/-- (C01 for the modelled natives AS WRITTEN, all operations incl. blockAccount of candidates) Without restarts
+    the observation does not depend on when and how often the node flushes, collects garbage or pools. -/
+theorem natives_flush_gc_pool_invisible (cfg : Cfg) (n₁ n₂ : NNode) (h0 : SimEq (nativeSys cfg) n₁ n₂)
+    (σ₁ σ₂ : List (Step Unit (List Tx) Unit)) (hb : blocksOf σ₁ = blocksOf σ₂)
+    (h1 : noRestart σ₁ = true) (h2 : noRestart σ₂ = true) :
+    observe (nativeSys cfg) (run (nativeSys cfg) n₁ σ₁) = observe (nativeSys cfg) (run (nativeSys cfg) n₂ σ₂) :=
+  observe_independent_of_flush_gc_pool (nativeSys cfg)
+    (by intro rd c h b
+        have : stateView (nativeSys cfg) rd = rd := by funext k; simp [stateView, nativeSys]
+        rw [this])
+    n₁ n₂ h0 σ₁ σ₂ hb h1 h2
+
+-- non-vacuity: the witness history (with the blockAccount) under a flush/gc/pool schedule
+example : observe (nativeSys wCfg) (run (nativeSys wCfg) (genesisNode wCfg wHolder) wSchedA) =
+    observe (nativeSys wCfg) (run (nativeSys wCfg) (genesisNode wCfg wHolder)
+      (wSchedA.take 3 ++ [Step.flush, Step.gc [()], Step.poolTx ()] ++ wSchedA.drop 3 ++ [Step.flush])) :=
+  natives_flush_gc_pool_invisible wCfg _ _ ⟨rfl, rfl, rfl, rfl⟩ _ _ (by decide) (by decide) (by decide)
 
 -- non-vacuity: the witness blocks without the blockAccount are a safe history with an elected committee; a
 -- schedule with flushes, a restart and GC agrees with the plain one (instance of the theorem), and the
